@@ -127,6 +127,11 @@ Stateless(e) ==
     [] e.op = "srsign" -> SignOK(e)
     [] e.op = "srverify" -> VerifyOK(e)
     [] e.op = "srdecode" -> DecodeOK(e)
+    [] e.op = "srgen" -> LET key == ModL(FromBytes(SubSeq(e.entropy, 1, 64)))
+                             skb == ToBytes(key, 32) \o SubSeq(e.entropy, 65, 96)
+                         IN /\ e.mini = SubSeq(e.entropy, 1, 32)
+                            /\ e.sk = skb
+                            /\ e.pair = skb \o REnc(PMul(key, 253, BasePt))
     [] OTHER -> FALSE
 TraceInit == l = 1 /\ B!Init
 TraceNext == /\ l <= Len(Trace)
